@@ -381,7 +381,8 @@ pub fn random(args: &Args) {
         }
         let mut w = W { iface, dev, sockets, socks, now: 0, sizes: HashMap::new() };
         // behaviour of the virtual stations
-        let mut arp_delay: HashMap<u8, i64> = HashMap::new(); // last octet -> delay in ms (-1: never answers)
+        // (ordered map: iteration order feeds random picks, and runs must be reproducible from (seed, run))
+        let mut arp_delay: std::collections::BTreeMap<u8, i64> = std::collections::BTreeMap::new(); // last octet -> delay in ms (-1: never answers)
         let nhosts = rng.range(2, (cache as u64 + 3).min(12)) as u8;
         // hosts that never answer appear in a minority of runs: an unanswered target monopolises the single global
         // discovery slot (known finding C09-discovery-starvation) and would hide everything else in the run
